@@ -60,11 +60,9 @@ InOuts(outs, y, rec) ==
 Card(S) == Cardinality(S)
 \* one pass over the runs of a template: the violated clauses of each run, the counters (measured, for the
 \* evidence file) and the model-conformance diagnostic
-RecEval(r) ==
-  LET E == [j \in DOMAIN r.runs |-> EndOf(r.runs[j])]
-      C == [j \in DOMAIN r.runs |-> ClausesAt(r, r.runs[j], E[j])]
-      J == DOMAIN r.runs
-  IN [ok |-> \A j \in J : C[j] = <<>>,
+\* (E and C are passed as operator arguments: TLC evaluates an argument once, a LET definition at every use)
+RecEval3(r, J, E, C) ==
+     [ok |-> \A j \in J : C[j] = <<>>,
       bad |-> LET idx == SelectSeq([j \in 1..Len(r.runs) |-> j], LAMBDA j : C[j] # <<>>) IN
               [i \in 1..Len(idx) |-> [t |-> r.runs[idx[i]].t, fk |-> r.runs[idx[i]].k, mode |-> r.runs[idx[i]].mode,
                                       clauses |-> C[idx[i]], path |-> Path(E[idx[i]].via)]],
@@ -75,6 +73,8 @@ RecEval(r) ==
                  modelled |-> IF r.modelled THEN Len(r.runs) ELSE 0,
                  driftF |-> IF r.modelled THEN Card({j \in J : ~InOuts(r.outsF, E[j].x, r.runs[j].rec)}) ELSE 0,
                  driftO |-> IF r.modelled THEN Card({j \in J : ~InOuts(r.outsO, E[j].x, r.runs[j].rec)}) ELSE 0]]
+RecEval2(r, E) == RecEval3(r, DOMAIN r.runs, E, [j \in DOMAIN r.runs |-> ClausesAt(r, r.runs[j], E[j])])
+RecEval(r) == RecEval2(r, [j \in DOMAIN r.runs |-> EndOf(r.runs[j])])
 RecOk(r) == RecEval(r).ok
 Sig(r) == [fam |-> "writer", name |-> r.name]
 Tally0 == [runs |-> 0, failing |-> 0, recovered |-> 0, undefined |-> 0, modelled |-> 0, driftF |-> 0, driftO |-> 0]
